@@ -1177,6 +1177,7 @@ diskdump_cleanup(struct kdump_shared *shared)
 			if (pdmap->regions)
 				free(pdmap->regions);
 		}
+		free(ddp->mem_pagemap.regions);
 		free(ddp);
 		shared->fmtdata = NULL;
 	}
